@@ -562,7 +562,14 @@ fn executor(w: &World) -> Exec {
 }
 
 /// validate `block`; returns (attempt list for the model, result)
-fn validate(w: &mut World, ex: &Exec, block: &Block, height: u32) -> (T, T, Option<Changes>) {
+fn validate(
+    w: &mut World,
+    ex: &Exec,
+    block: &Block,
+    height: u32,
+    n_forced: usize,
+    n_l1: usize,
+) -> (T, T, Option<Changes>) {
     let gas_price = match block.transactions().last() {
         Some(Transaction::Mint(m)) => {
             use fuel_core_types::fuel_tx::field::MintGasPrice;
@@ -572,14 +579,19 @@ fn validate(w: &mut World, ex: &Exec, block: &Block, height: u32) -> (T, T, Opti
     };
     let _ = verif_hooks::take();
     let res = ex.validate(block);
-    let (atts, fin) = split_log(verif_hooks::take());
+    let (mut atts, fin) = split_log(verif_hooks::take());
+    // validation re-executes the forced transactions from the relayer, then the block's
+    // transactions after the first n_l1 ones
+    let n_forced = n_forced.min(atts.len());
+    atts.drain(..n_forced);
     let chain_id = w.params.chain_id();
     let vatts: Vec<T> = block
         .transactions()
         .iter()
         .enumerate()
         .map(|(k, tx)| {
-            let mut a = abs_att(w, tx, false, atts.get(k), height, gas_price);
+            let recs = if k >= n_l1 { atts.get(k - n_l1) } else { None };
+            let mut a = abs_att(w, tx, false, recs, height, gas_price);
             if let (Transaction::Mint(_), T::L(v)) = (tx, &mut a) {
                 // the recomputed mint is opaque: its digest is the block's own
                 let mall = match &v[0] {
@@ -616,9 +628,131 @@ fn changes_equal(a: &Changes, b: &Changes) -> bool {
     a == b
 }
 
+/// parsed transaction and validity (parse, variant, claimed gas, checks) of a relayed one
+fn forced_flags(
+    w: &World,
+    r: &fuel_core_types::entities::RelayedTransaction,
+    height: u32,
+) -> Option<(Transaction, bool)> {
+    use fuel_core_types::{blockchain::transaction::TransactionExt, fuel_types::canonical::Deserialize};
+    let tx = Transaction::from_bytes(r.serialized_transaction()).ok()?;
+    if matches!(tx, Transaction::Mint(_)) {
+        return Some((tx, false));
+    }
+    let actual = tx.max_gas(&w.params).unwrap_or(u64::MAX);
+    let check_ok = tx.clone().into_checked(BlockHeight::new(height), &w.params).is_ok();
+    let ok = actual <= r.max_gas() && check_ok;
+    Some((tx, ok))
+}
+
+fn da_in_range(prev_da: Option<u64>, da: u64, height: u32, h: u64) -> bool {
+    match prev_da {
+        Some(p) => height != 0 && p != u64::MAX && h > p && h <= da,
+        None => false,
+    }
+}
+
+/// number of valid forced transactions of the DA range of this block
+fn forced_in_range(w: &World, prev_da: Option<u64>, da: u64, height: u32) -> usize {
+    use fuel_core_types::services::relayer::Event;
+    let mut out = 0usize;
+    for (h, evs) in w.relayed.iter() {
+        if da_in_range(prev_da, da, height, *h) {
+            for e in evs {
+                if let Event::Transaction(r) = e {
+                    if let Some((_, true)) = forced_flags(w, r, height) {
+                        out += 1;
+                    }
+                }
+            }
+        }
+    }
+    out
+}
+
+#[allow(clippy::too_many_arguments)]
+fn abs_l1(
+    w: &mut World,
+    enabled: bool,
+    prev_da: Option<u64>,
+    height: u32,
+    forced_recs: &[AttemptRecs],
+    da: u64,
+) -> T {
+    use fuel_core_types::{blockchain::transaction::TransactionExt, services::relayer::Event};
+    let mut entries = vec![];
+    let relayed = w.relayed.clone();
+    let mut k = 0usize;
+    for (h, evs) in relayed.iter() {
+        let mut es = vec![];
+        for e in evs {
+            let hash = T::bytes(e.hash().as_ref());
+            match e {
+                Event::Message(m) => {
+                    es.push(T::l(vec![T::i(0), hash, abs::row_t(&abs::msg_row(&mut w.int, m))]));
+                }
+                Event::Transaction(r) => {
+                    let rid: fuel_core_types::fuel_tx::Bytes32 = r.id().into();
+                    let id = w.int.id(rid.as_ref());
+                    let parsed = forced_flags(w, r, height);
+                    let (parse_ok, is_mint, actual, check_ok, att) = match &parsed {
+                        None => (false, false, 0u64, true, None),
+                        Some((tx, ok)) => {
+                            let is_mint = matches!(tx, Transaction::Mint(_));
+                            let actual = tx.max_gas(&w.params).unwrap_or(0);
+                            let check_ok = if is_mint {
+                                true
+                            } else {
+                                tx.clone().into_checked(BlockHeight::new(height), &w.params).is_ok()
+                            };
+                            let recs = if *ok && da_in_range(prev_da, da, height, *h) {
+                                k += 1;
+                                forced_recs.get(k - 1)
+                            } else {
+                                None
+                            };
+                            (true, is_mint, actual, check_ok, Some(abs_att(w, tx, true, recs, height, 0)))
+                        }
+                    };
+                    let att = att.unwrap_or_else(|| {
+                        T::l(vec![
+                            T::l(vec![n(0), T::b(false), T::l(vec![]), T::l(vec![]), n(0), n(0), n(0), n(0), n(0), n(0), n(0), T::b(true)]),
+                            T::b(true),
+                            n(u32::MAX as u64),
+                            T::b(true),
+                            T::b(true),
+                            T::b(true),
+                            T::l(vec![]),
+                            n(13),
+                            T::b(true),
+                        ])
+                    });
+                    es.push(T::l(vec![
+                        T::i(1),
+                        hash,
+                        n(id),
+                        T::b(parse_ok),
+                        T::b(is_mint),
+                        n(r.max_gas()),
+                        n(actual),
+                        T::b(check_ok),
+                        att,
+                    ]));
+                }
+            }
+        }
+        entries.push(T::l(vec![n(*h), T::l(es)]));
+    }
+    T::l(vec![T::b(enabled), T::opt(prev_da), T::l(entries)])
+}
+
 pub fn run_block(w: &mut World, rng: &mut Rng, plan: BlockPlan) -> (T, T) {
     let height = w.height;
     let ex = executor(w);
+    let relayer_on = w.flags & world::F_RELAYER != 0;
+    let prev_da: Option<u64> =
+        if relayer_on && (w.has_genesis_block || height > 1) { Some(w.da_height) } else { None };
+    let n_forced = if relayer_on { forced_in_range(w, prev_da, plan.da_height, height) } else { 0 };
     let pending: Vec<(usize, MaybeCheckedTransaction)> = plan
         .txs
         .iter()
@@ -646,7 +780,10 @@ pub fn run_block(w: &mut World, rng: &mut Rng, plan: BlockPlan) -> (T, T) {
     };
     let _ = verif_hooks::take();
     let res = ex.produce_without_commit_with_source_direct_resolve(comps);
-    let (atts, fin) = split_log(verif_hooks::take());
+    let (mut atts, fin) = split_log(verif_hooks::take());
+    // the forced transactions are attempted first
+    let n_forced = n_forced.min(atts.len());
+    let forced_recs: Vec<AttemptRecs> = atts.drain(..n_forced).collect();
     let calls = src.0.lock().unwrap().calls.clone();
     let chain_id = w.params.chain_id();
 
@@ -678,7 +815,18 @@ pub fn run_block(w: &mut World, rng: &mut Rng, plan: BlockPlan) -> (T, T) {
     let mint_recs = atts.get(p).cloned();
     let mint_id = mint_recs.as_ref().and_then(|a| a.id);
 
-    let l1 = T::l(vec![T::b(false), T::l(vec![]), T::l(vec![])]);
+    let l1 = abs_l1(w, relayer_on, prev_da, height, &forced_recs, plan.da_height);
+    // forced transactions that made it into the block
+    let n_l1 = {
+        let mut c = 0usize;
+        for (k, r) in forced_recs.iter().enumerate() {
+            let next_status = forced_recs.get(k + 1).map(|x| x.n_status).or(atts.first().map(|x| x.n_status));
+            if next_status == Some(r.n_status + 1) {
+                c += 1;
+            }
+        }
+        c
+    };
     let mut vatts = T::l(vec![]);
     let mut val_out = T::l(vec![]);
     let mut same_changes = false;
@@ -759,7 +907,7 @@ pub fn run_block(w: &mut World, rng: &mut Rng, plan: BlockPlan) -> (T, T) {
                 }
                 a
             };
-            let (va, vo, vchanges) = validate(w, &ex, &block, height);
+            let (va, vo, vchanges) = validate(w, &ex, &block, height, n_forced, n_l1);
             vatts = va;
             val_out = vo;
             same_changes = vchanges.as_ref().map(|c| changes_equal(c, &changes)).unwrap_or(false);
@@ -769,7 +917,7 @@ pub fn run_block(w: &mut World, rng: &mut Rng, plan: BlockPlan) -> (T, T) {
                         continue;
                     }
                     if let Some(tb) = tamper(w, rng, &block, kind) {
-                        let (ta, to, _) = validate(w, &ex, &tb, height);
+                        let (ta, to, _) = validate(w, &ex, &tb, height, n_forced, n_l1);
                         tam_in.push(T::l(vec![n(kind), T::b(kind == 0), ta]));
                         let tag = match &to {
                             T::L(v) => v[0].clone(),
